@@ -34,6 +34,9 @@ func c07EndToEnd(c *vk.Ctx) {
 		tc.Close()
 	})
 	keys := RandKeys(r, 3, nil, 0)
+	// salt sizes 16 and 24/32: with the short ones the 50 bytes read ahead reach beyond the handshake
+	keys[0].Cipher = "aes-128-gcm"
+	keys[1].Cipher = pick(r, []string{"aes-192-gcm", "chacha20-ietf-poly1305", "aes-256-gcm"})
 	N := 30
 	cache := service.NewReplayCache(N)
 	timeout := 800 * time.Millisecond
@@ -165,7 +168,16 @@ func c07EndToEnd(c *vk.Ctx) {
 				c.Inconclusive("dial6 failed: " + err.Error())
 				continue
 			}
-			cl.WriteRaw(old.stream)
+			replayed := old.stream
+			altered := false
+			if hdr := old.key.Codec().C.SaltSize + 2 + 16; r.Intn(2) == 0 && len(replayed) > hdr+4 {
+				// the same handshake (key, salt, first length block) with different bytes after it: still
+				// the handshake that was seen before
+				replayed = append([]byte(nil), old.stream...)
+				replayed[hdr+r.Intn(min(16, len(replayed)-hdr))] ^= byte(1 + r.Intn(255))
+				altered = true
+			}
+			cl.WriteRaw(replayed)
 			cl.Conn.CloseWrite()
 			reply, _ := cl.ReadAllPlain(time.Now().Add(15 * time.Second))
 			cl.Conn.Close()
@@ -187,9 +199,12 @@ func c07EndToEnd(c *vk.Ctx) {
 					st = rec.Snap().Status()
 				}
 				if len(reply) != 0 || seen != 1 || st != "ERR_REPLAY_CLIENT" {
-					c.Violation("C07/e2e/sequential-replay-accepted", map[string]any{"distance": dist, "history": N, "reply_len": len(reply), "target_connections": seen, "status": st})
+					c.Violation("C07/e2e/sequential-replay-accepted", map[string]any{"distance": dist, "history": N, "reply_len": len(reply), "target_connections": seen, "status": st, "bytes_after_the_handshake_altered": altered, "cipher": old.key.Cipher})
 				}
 				c.Count("e2e_sequential_replays_refused", 1)
+				if altered {
+					c.Count("e2e_replays_with_altered_continuation_refused", 1)
+				}
 			}
 		}
 	}
